@@ -137,6 +137,20 @@ let find_field (pre : string) (fields : string list) : string option =
       if acc = None && String.length f >= l && String.sub f 0 l = pre then Some (String.sub f l (String.length f - l)) else acc)
     None fields
 
+let starts p f = String.length f >= String.length p && String.sub f 0 (String.length p) = p
+let cut s = if String.length s > 300 then String.sub s 0 300 ^ "..." else s
+let show_diff impl_s model =
+  let k = ref 0 in
+  let la = String.length impl_s and lb = String.length model in
+  while !k < la && !k < lb && impl_s.[!k] = model.[!k] do incr k done;
+  let from s = let st = max 0 (!k - 40) in cut (String.sub s st (String.length s - st)) in
+  "diff at=" ^ string_of_int !k ^ " impl=.." ^ from impl_s ^ " model=.." ^ from model
+
+(* Verdict.  Order: (1) the property predicate on the implementation's own output - it terminated
+   normally and what it allocated (largest single request AND total, measured) is in proportion to
+   the input; only this gives `viol`, tagged with a known class when the extracted KnownClass predicate
+   holds and explains the measurement; (2) correspondence with the model: anything else is `diff`;
+   environment trouble is `ok notrun` (counted and capped by checks/c08.py). *)
 let verdict case impl =
   match case with
   | [kind; ft; mode; hex] ->
@@ -145,55 +159,48 @@ let verdict case impl =
     let stream = bytes_of_hexstr hex in
     let len = List.length stream in
     let dc = find_field "dc=" impl in
-    let impl = List.filter (fun f -> not (String.length f > 3 && String.sub f 0 3 = "dc=")) impl in
     let decompress = (fun _ -> match dc with
         | Some "!" | None -> None
         | Some h -> Some (bytes_of_hexstr h)) in
-    let maxreq = match find_field "m=" impl with Some v -> int_of_string v | None -> 0 in
-    let status = List.filter (fun f -> not (String.length f > 2 && (String.sub f 0 2 = "m=" || String.sub f 0 2 = "t="))) impl in
+    let num p = match find_field p impl with Some v -> int_of_string v | None -> 0 in
+    let maxreq = num "m=" and total = num "t=" in
+    let small = match find_field "s=" impl with Some v -> v | None -> "-" in
+    let status = List.filter (fun f -> not (starts "m=" f || starts "t=" f || starts "s=" f || starts "dc=" f)) impl in
     (match status with
-     | ("abort" | "timeout" | "panic") :: _ ->
-       "viol crash=" ^ String.concat "_" status ^ " len=" ^ string_of_int len
-     | _ when kind.[0] = 'P' ->
-       (* a PREPARED frame followed by a Rows frame decoded against the cached result metadata *)
-       let bound = int_of_n (alloc_bound (n_of_i len)) in
-       if maxreq > bound then Printf.sprintf "viol alloc=%d bound=%d len=%d" maxreq bound len else
-       let model = (match decode_pair parse_custom ft stream with
-           | None -> "pair none"
-           | Some (Err (st, e)) -> "err " ^ stage_name st ^ " " ^ err_name e
-           | Some (Ok (r, cc)) ->
-             let tv = if r.rr_cols = [] then "-" else
-                 (match typed_rows_first_error r.rr_cols r.rr_rows N0 with None -> "ok" | Some i -> "err@" ^ dec_of_n i) in
-             "ok " ^ r_rows r cc ^ " tv=" ^ tv) in
-       let impl_s = String.concat " " status in
-       if impl_s = model then "ok"
-       else if String.length model >= 14 && String.sub model (String.length model - 16) 16 = "MODEL-UNMODELLED" then "ok unmodelled"
-       else begin
-         let k = ref 0 in
-         let la = String.length impl_s and lb = String.length model in
-         while !k < la && !k < lb && impl_s.[!k] = model.[!k] do incr k done;
-         let cut s = if String.length s > 300 then String.sub s 0 300 ^ "..." else s in
-         let from s = let st = max 0 (!k - 40) in cut (String.sub s st (String.length s - st)) in
-         "diff at=" ^ string_of_int !k ^ " impl=.." ^ from impl_s ^ " model=.." ^ from model
-       end
+     | "notrun" :: r -> "ok notrun " ^ String.concat "_" r
+     | ("abort" | "panic") :: _ -> "viol crash=" ^ String.concat "_" status ^ " len=" ^ string_of_int len
+     | "timeout" :: _ ->
+       (* confirmed by a solo re-run with three times the limit; every generated input is far below
+          the size for which seconds of decoding could be legitimate *)
+       if len <= 1 lsl 20 then "viol hang len=" ^ string_of_int len else "ok notrun timeout-on-large-input"
      | _ ->
-       (* C08_alloc: R = 1 without a codec; 255 for LZ4 (the decoder refuses larger claims since
-          d6bbe9c); a Snappy body sizes its own buffer inside the snap crate (residual): not judged *)
-       let compressed = compression && len > 1 && (int_of_n (List.nth stream 1)) land 1 = 1 in
+       let pair = kind.[0] = 'P' in
+       let compressed = (not pair) && compression && len > 1 && (int_of_n (List.nth stream 1)) land 1 = 1 in
        let snappy = compressed && mode.[1] = 's' in
-       let expansion = if compressed then 255 else 1 in
-       let bound = int_of_n (alloc_bound (n_of_i (expansion * len))) in
-       if maxreq > bound && not snappy then Printf.sprintf "viol alloc=%d bound=%d len=%d" maxreq bound len
-       else begin
-         let (o, c) = decode decompress ft v2 compression stream in
-         let model = match o with
-           | OErr (st, e) -> "err " ^ stage_name st ^ " " ^ err_name e
+       (* expansion factor of the codec (C08_alloc's R): frame::decompress refuses larger claims
+          (LZ4 since d6bbe9c, Snappy since 30df852) *)
+       let expansion = if snappy then 32 else if compressed then 255 else 1 in
+       let (model, c, unmodelled) =
+         if pair then
+           (match decode_pair parse_custom ft stream with
+            | (None, c) -> ("pair none", c, false)
+            | (Some (Err (st, e)), c) -> ("err " ^ stage_name st ^ " " ^ err_name e, c, e = EUnmodelled)
+            | (Some (Ok (r, cc)), c) ->
+              let tv = if r.rr_cols = [] then "z" ^ dec_of_n (if int_of_n r.rr_rows_count > 1000000 then n_of_i 1000000 else r.rr_rows_count) else
+                  (match typed_rows_first_error r.rr_cols r.rr_rows N0 with None -> "ok" | Some i -> "err@" ^ dec_of_n i) in
+              ("ok " ^ r_rows r cc ^ " tv=" ^ tv, c, false))
+         else begin
+           let (o, c) = decode decompress ft v2 compression stream in
+           match o with
+           | OErr (st, e) -> ("err " ^ stage_name st ^ " " ^ err_name e, c, e = EUnmodelled)
            | ODone f ->
              (* typed rows (rows_iter::<Row>() until the first error) and the tablet payload *)
              let tv = (match f.d_resp with
                  | RResult (ResRows r) when r.rr_cols <> [] ->
                    (match typed_rows_first_error r.rr_cols r.rr_rows N0 with
                     | None -> "ok" | Some i -> "err@" ^ dec_of_n i)
+                 | RResult (ResRows r) ->
+                   "z" ^ dec_of_n (if int_of_n r.rr_rows_count > 1000000 then n_of_i 1000000 else r.rr_rows_count)
                  | _ -> "-") in
              let tb = (match f.d_ext.x_payload with
                  | None -> "-"
@@ -202,34 +209,36 @@ let verdict case impl =
                     | None -> "none"
                     | Some v ->
                       (match tablet_payload v with
-                       | Ok ((_, _), reps) -> "ok:" ^ string_of_int (List.length reps)
+                       | Ok ((first, last), reps) ->
+                         "ok:" ^ hex_of_z first ^ "," ^ hex_of_z last ^ ","
+                         ^ lst (fun (u, sh) -> "(" ^ hexs u ^ "," ^ dec_of_n sh ^ ")") reps
                        | Err TbDeserialization -> "err:Deserialization"
                        | Err TbShardNum -> "err:ShardNum"
                        | Err TbWrongTokenRange -> "err:WrongTokenRange"))) in
-             "ok " ^ r_frame f ^ " tv=" ^ tv ^ " tb=" ^ tb in
-         let unmodelled = (match o with OErr (_, EUnmodelled) -> true | _ -> false) in
-         let impl_s = String.concat " " status in
-         let truncated = kind.[0] = 'T' || kind.[0] = 'U' in
-         if truncated && (match status with "ok" :: _ -> true | _ -> false) then
-           "viol truncated-frame-accepted model=" ^ (if String.length model > 200 then String.sub model 0 200 else model)
-         else if unmodelled then "ok unmodelled"
-         else if impl_s = model then begin
-           (* correspondence of the ghost counters with the measurements *)
-           let malloc = int_of_n c.c_alloc in
-           if maxreq > malloc + 64 * len + 65536 && not compressed then
-             Printf.sprintf "diff alloc-accounting maxreq=%d model_alloc=%d len=%d" maxreq malloc len
-           else if int_of_n c.c_depth > int_of_n depth_bound then "viol depth=" ^ dec_of_n c.c_depth
-           else "ok"
-         end
-         else begin
-           let cut s = if String.length s > 300 then String.sub s 0 300 ^ "..." else s in
-           (* first position where they differ, to make the report readable *)
-           let k = ref 0 in
-           let la = String.length impl_s and lb = String.length model in
-           while !k < la && !k < lb && impl_s.[!k] = model.[!k] do incr k done;
-           let from s = let st = max 0 (!k - 40) in cut (String.sub s st (String.length s - st)) in
-           "diff at=" ^ string_of_int !k ^ " impl=.." ^ from impl_s ^ " model=.." ^ from model
-         end
+             ("ok " ^ r_frame f ^ " tv=" ^ tv ^ " tb=" ^ tb, c, false)
+         end in
+       let impl_s = String.concat " " status in
+       let malloc = int_of_n c.c_alloc in
+       let elen = n_of_i (expansion * len) in
+       if not (largest_in_proportion elen (n_of_i maxreq) && total_in_proportion elen (n_of_i total)) then
+         (* the property fails on the implementation's own measurements (C08_alloc's bound for the
+            largest request, twice that for the total of all requests) *)
+         Printf.sprintf "viol alloc largest=%d total=%d bound=%d len=%d model_alloc=%d" maxreq total
+           (int_of_n (alloc_bound elen)) len malloc
+       else if unmodelled then "ok unmodelled"
+       else if impl_s <> model then show_diff impl_s model
+       else begin
+         (* correspondence of the ghost counter with the measurement: every large request is one of the
+            pinned reservations, or proportional to the (decompressed) input, or the codec's buffer *)
+         let dlen = (match dc with Some h when h <> "!" -> String.length h / 2 | _ -> 0) in
+         (* the codec's own buffer: at most 255 x body (LZ4) / 32 x body (Snappy), enforced by frame::decompress *)
+         let codec_buffer = if compressed then expansion * len else 0 in
+         if maxreq > malloc + 64 * (len + dlen) + 65536 + codec_buffer then
+           Printf.sprintf "diff alloc-accounting maxreq=%d model_alloc=%d len=%d" maxreq malloc len
+         else if small = "overflow" || small = "differ" then
+           (* the model bounds the recursion by 257 levels: a quarter of the 2 MiB stack must do *)
+           "diff stack-accounting small-stack-run=" ^ small ^ " model_depth=" ^ dec_of_n c.c_depth
+         else "ok"
        end)
   | _ -> "error unknown-case"
 
